@@ -182,19 +182,26 @@ def observe(n, k, route, pshape, nested, rnd):
             supplied, pshape = "Custom/Zone-1", None   # dateutil's VTIMEZONE reader accepts no parameters on TZID
     key = n.lower() if rnd.random() < 0.5 else n
     params = dict(pshape) if pshape else None
+    import copy as _copy
+    handed = supplied                      # the object handed to the API ...
+    try:
+        supplied = _copy.deepcopy(supplied)    # ... is compared as it was AT the call (the API must not be able to edit the expectation)
+    except Exception:   # noqa: BLE001
+        supplied = handed
+    handed_params = params
     if route == "setter":
-        setattr(comp, SETTER[n], supplied)
+        setattr(comp, SETTER[n], handed)
         if params:
             for pk, pv in params.items():
                 comp[n].params[pk] = pv
     elif route == "item":
-        if isinstance(supplied, list) and n not in ("RDATE", "EXDATE", "CATEGORIES"):
-            obj = [Component._encode(n, v, params) for v in supplied]
+        if isinstance(handed, list) and n not in ("RDATE", "EXDATE", "CATEGORIES"):
+            obj = [Component._encode(n, v, params) for v in handed]
         else:
-            obj = Component._encode(n, supplied, params)
+            obj = Component._encode(n, handed, params)
         comp[key] = obj
     else:
-        comp.add(key, supplied, parameters=params)
+        comp.add(key, handed, parameters=params)
     root = comp
     if nested:
         root = Calendar() if not isinstance(comp, (Alarm, TimezoneStandard)) else (Event() if isinstance(comp, Alarm) else Timezone())
